@@ -297,6 +297,104 @@ def run_inbound_lengths(params, known):
     return dict(name=params['name'], evaluations=count, nontrivial_keys=sorted(keys), violations=violations, known=[], samples=[])
 
 
+def run_file_api(params, known):
+    """The file forms of the contact's bus methods: `recv_bundle_pop_file(id, path)` leaves in the file exactly
+    the announced bundle - whatever the file held before (a longer earlier bundle, foreign content, nothing) -
+    and `send_bundle_file(path)` transmits exactly the file's content.  Pairs of bundle lengths, popped into
+    one file or two, in arrival or reverse order."""
+    import itertools
+    import os
+    import shutil
+    import tempfile
+    from ..peer_world import PeerWorld, PATH, IFACE
+    from ..oracle import tcpclv4 as T
+    from ..world import Violation
+    violations = []
+    kinds = set()
+    count = 0
+    keys = set()
+
+    def viol(kind, detail, case):
+        if kind in kinds:
+            return
+        kinds.add(kind)
+        v = Violation(PROP, 'file-api', kind, dict(), '%r: %s' % (case, detail)).as_dict()
+        v['case'] = case
+        violations.append(v)
+
+    def content(n, seed):
+        return bytes((i * 7 + seed) & 0xFF for i in range(n))
+    tmp = tempfile.mkdtemp(prefix='verif-c18-')
+    try:
+        lengths = (0, 1, 5, 8, 300)
+        for (role, (l1, l2), paths, before, order) in itertools.product(('passive', 'active'), itertools.product(lengths, repeat=2),
+                                                                        ('same', 'two'), ('absent', 'longer-content'), ('arrival', 'reverse')):
+            count += 1
+            case = dict(role=role, lengths=[l1, l2], files=paths, file_before=before, pop_order=order)
+            w = PeerWorld(dict(role=role, seg_mru=64, tx_init=64))
+            w.peer_write(T.enc_contact(0) + T.enc_sess_init(0, 64, 2 ** 32, b'dtn://peer/'))
+            w.quiesce()
+            data = [content(l1, 1), content(l2, 101)]
+            for (k, d) in enumerate(data):
+                segs = [d[i:i + 64] for i in range(0, len(d), 64)] or [b'']
+                for (j, seg) in enumerate(segs):
+                    w.peer_write(T.enc_segment((2 if j == 0 else 0) | (1 if j == len(segs) - 1 else 0), k + 1, seg))
+                w.quiesce()
+            fin = [sg for sg in w.signals if sg[0] == 'recv_bundle_finished' and sg[3] == 'success']
+            if len(fin) != 2:
+                viol('inbound-transfers-not-finished', repr(w.signals[-4:]), case)
+                continue
+            files = [os.path.join(tmp, 'f0'), os.path.join(tmp, 'f0' if paths == 'same' else 'f1')]
+            for f in set(files):
+                if os.path.exists(f):
+                    os.unlink(f)
+                if before == 'longer-content':
+                    with open(f, 'wb') as fobj:
+                        fobj.write(b'\xee' * 400)
+            idx = [0, 1] if order == 'arrival' else [1, 0]
+            for k in idx:
+                res = w.bus_call(w.proc, PATH, 'recv_bundle_pop_file', fin[k][1], files[k], iface=IFACE)
+                if res[0] != 'ok':
+                    viol('pop-into-file-fails', repr(res), case)
+                    continue
+                import gc
+                gc.collect()
+                with open(files[k], 'rb') as fobj:
+                    got = fobj.read()
+                if got != data[k]:
+                    viol('file-does-not-hold-exactly-the-bundle', 'bundle of %d octets, file holds %d octets (first difference at %d)'
+                         % (len(data[k]), len(got), next((i for i in range(min(len(got), len(data[k]))) if got[i] != data[k][i]), min(len(got), len(data[k])))), case)
+            q = w.bus_call(w.proc, PATH, 'recv_bundle_get_queue', iface=IFACE)
+            if q[0] != 'ok' or list(q[1]) != []:
+                viol('receive-queue-not-empty-after-the-pops', repr(q), case)
+            if w.escaped:
+                viol('exception-escaped-callback', '%s: %s' % (w.escaped[-1][0], w.escaped[-1][2]), case)
+            keys.add('%s/%d/%d/%s/%s/%s' % (role, l1, l2, paths, before, order))
+        # sending from a file
+        for (role, length) in itertools.product(('passive', 'active'), (0, 1, 64, 65, 300)):
+            count += 1
+            case = dict(role=role, send_file_length=length)
+            w = PeerWorld(dict(role=role, seg_mru=64, tx_init=64))
+            w.peer_write(T.enc_contact(0) + T.enc_sess_init(0, 64, 2 ** 32, b'dtn://peer/'))
+            w.quiesce()
+            path = os.path.join(tmp, 'tx')
+            with open(path, 'wb') as fobj:
+                fobj.write(content(length, 33))
+            res = w.bus_call(w.proc, PATH, 'send_bundle_file', path, iface=IFACE)
+            w.quiesce()
+            (msgs, _rest) = T.parse_all(bytes(w.out_octets), with_contact=True)
+            segs = [m for m in msgs if m['kind'] == 'XFER_SEGMENT']
+            sent = b''.join(m['data'] for m in segs)
+            if res[0] != 'ok':
+                viol('send-from-file-fails', repr(res), case)
+            elif sent != content(length, 33) or not segs or not segs[-1]['flags'] & 1:
+                viol('transmitted-octets-differ-from-the-file', '%d octets in %d segments' % (len(sent), len(segs)), case)
+            keys.add('%s/send/%d' % (role, length))
+    finally:
+        shutil.rmtree(tmp, ignore_errors=True)
+    return dict(name=params['name'], evaluations=count, nontrivial_keys=sorted(keys), violations=violations, known=[], samples=[])
+
+
 def run_agent_receive(params, known):
     '''Several contacts of one agent receive at the same time (every peer numbers its transfers
     from 1).  Nothing is popped until the run is over; then every contact must list exactly the
@@ -408,6 +506,7 @@ def scenarios(tier):
                             params=dict(name=nm, role=role, bundles=bundles, depth=depth), weight=15))
     out.append(dict(name='agent-receive', kind='enum', runner='run_agent_receive', params=dict(name='agent-receive'), weight=15))
     out.append(dict(name='inbound-lengths', kind='enum', runner='run_inbound_lengths', params=dict(name='inbound-lengths'), weight=5))
+    out.append(dict(name='file-api', kind='enum', runner='run_file_api', params=dict(name='file-api'), weight=5))
     # whole nodes: the BP agent consuming the D-Bus view through the real TCPCL adaptor of bp/cla.py
     for wname in NODE_WORKLOADS:
         for order in (['N0', 'N1'], ['N1', 'N0']):
